@@ -432,7 +432,7 @@ def iterable_request_obligation(chk, tier, rng):
                 tl.resolve(strain, iter([c_(k[1:]) for k in keys]))
                 tl.calculate()
                 return {"c%d%d" % k.v: v for k, v in tl.get_isothermal_results().items()}, {"c%d%d" % k.v: v for k, v in tl.get_adiabatic_results().items()}
-        iso, adi = X.run_single_path(fn, name="C04:iterable")
+        iso, adi = X.run_single_path(fn, name="C04:iterable", generic=True)
         ref, _ = PL.run_pipeline(duck, strain, keys)
         for got, want, which in ((iso, ref["iso"], "isothermal"), (adi, ref["adi"], "adiabatic")):
             if set(got) != set(keys):
